@@ -5,6 +5,7 @@ from sqv import hlib
 from sqv.nodes import build, mkstate, Stub
 from smartquery import ast_ops, functions
 from smartquery.functions import FUNCTIONS
+from smartquery.exceptions import ParserError
 from sqv.api import run_eval, prewarm
 
 
@@ -57,7 +58,13 @@ def routing_node(which: bool, key_is_str: bool, ki: int) -> None:
         rec = Rec()
         host = {'x': rec}
         st = mkstate(0, 1000, host=host)
-        node.eval(st)
+        try:
+            node.eval(st)
+        except ParserError:
+            # a compound operator may refuse non-numeric operands outright: then nothing may have been stored
+            assert host['x'] is rec and rec.got == [], "operator refused its operands but changed the variable"
+            hlib.done()
+            return
         if kind == 'AssignOp':
             v = host['x']
             assert isinstance(v, Wrapped) and v.inner is s, "name assignment stores the evaluated object itself, not a deep copy of it"
@@ -93,7 +100,12 @@ def routing_setitem(key_is_str: bool, ki: int, as_dict: bool) -> None:
             v = cont[str(ki) if as_dict else ki]
             assert isinstance(v, Wrapped) and v.inner is s, "index assignment stores the object itself, not a deep copy"
         else:
-            FUNCTIONS[name](cont, key, op, s)
+            try:
+                FUNCTIONS[name](cont, key, op, s)
+            except ParserError:
+                assert rec.got == [] and cont[str(ki) if as_dict else ki] is rec, "operator refused its operands but changed the slot"
+                hlib.done()
+                return
             assert len(rec.got) == 1
             v = rec.got[0]
             assert isinstance(v, Wrapped) and v.inner is s, "compound index assignment combines with the object itself, not a deep copy"
